@@ -445,6 +445,8 @@ def correspond(ctx):
 def oracle(ctx, deep):
     fails = []
     rng = ctx.rng
+    if not hasattr(ctx, 'uapi'):
+        ctx.uapi = c14.translate_uapi(ctx)     # the source translation failed closed: the kernel side does not need it
     ke = c14.KEnc(ctx)
     n = 150 if deep else 40
     for i in range(n // 8 + 2):
